@@ -34,6 +34,9 @@ def make_site(kind, cons):
         s = ts.FermionSite(conserve={'none': None, 'U1': 'N', 'Z2': 'parity'}[cons])
     elif kind == 'T':
         s = ts.SpinSite(S=1.0, conserve={'none': None, 'U1': 'Sz', 'Z2': 'parity'}[cons])
+    elif kind == 'E':
+        assert cons == 'none'
+        s = ts.SpinHalfFermionSite(cons_N=None, cons_Sz=None)
     else:
         raise ValueError('unknown site kind %r' % (kind,))
     _site_cache[key] = s
@@ -266,7 +269,7 @@ def close(a, b, rtol=1e-9, scale=None):
 # ------------------------------------------------------------------------------------------------
 # replay of spec behaviours (shared by checks c07, c08, c09)
 # ------------------------------------------------------------------------------------------------
-LABELS = {'H': ['up', 'down'], 'F': ['empty', 'full'], 'T': ['-1.0', '0.0', '1.0']}
+LABELS = {'H': ['up', 'down'], 'F': ['empty', 'full'], 'T': ['-1.0', '0.0', '1.0'], 'E': ['empty', 'up', 'down', 'full']}
 
 
 def rep_to_rec(rep, nrm=1):
@@ -588,7 +591,17 @@ def h_from_bflat(rp, l, o):
     rp.bc = src['bc']
     rp.psi = quiet(MPS.from_Bflat, sites, Bs, SVs, bc=src['bc'], permute=True, form=list(src['form']),
                    unit_cell_width=len(sites))
-    return dict(sig=dict(cons=src['cons']))
+    sig = dict(cons=src['cons'], L=len(sites), inner_chi_1=all(b.shape[2] == 1 for b in Bs[:-1]))
+    if src['bc'] == 'infinite':
+        # canonical_form_infinite re-gauges the window: only the canonical form itself is claimed (to the precision
+        # documented for canonical_form_infinite1, half the machine precision)
+        if l['chimax'] > 1:
+            nt = float(np.max(np.abs(quiet(rp.psi.norm_test))))
+            if not nt < 1e-6:
+                rp.violation('from_Bflat', 'not-canonical', dict(norm_test=nt, chi=list(rp.psi.chi)), **sig)
+                return False
+        return dict(sig=sig, skip_state=True)
+    return dict(sig=sig)
 
 
 # ---- form algebra ----------------------------------------------------------------------------------
@@ -691,6 +704,42 @@ def schmidt_checks(rp, psi, rho, op, sig):
     return ok
 
 
+def spectrum_by_charge(rp, psi, rhoq, op, sig):
+    """entanglement_spectrum(by_charge=True): per bond and charge sector, sum S^2 and sum S^4 of that sector are the
+    traces of the exact reduced density matrix restricted to the rows of that charge"""
+    items = rhoq.items() if isinstance(rhoq, dict) else [(k + 1, m) for k, m in enumerate(rhoq)]
+    if not items:
+        return True
+    spec_ = quiet(psi.entanglement_spectrum, by_charge=True)
+    nt = psi.nontrivial_bonds
+    mod2 = psi.chinfo.mod[0] == 2 if psi.chinfo.qnumber else False
+    for k, rec in items:
+        b = k - 1
+        M = matrix_from_spec(rec['rho'])
+        q = np.array([int(x) for x in rec['q']])
+        tr = np.trace(M).real
+        want = {}
+        for c in sorted(set(q.tolist())):
+            sub = M[np.ix_(q == c, q == c)]
+            w1, w2 = np.trace(sub).real / tr, np.trace(sub @ sub).real / tr ** 2
+            if w1 > 1e-13:
+                want[c] = (w1, w2)
+        got = {}
+        for ch, xi in spec_[b - nt.start]:
+            c = int(ch[0]) % 2 if mod2 else int(ch[0])
+            p = np.exp(-np.asarray(xi))
+            a = got.get(c, (0.0, 0.0))
+            got[c] = (a[0] + float(np.sum(p)), a[1] + float(np.sum(p ** 2)))
+        got = {c: v for c, v in got.items() if v[0] > 1e-13}
+        rp.ctx.case((rp.origin, rp.step, 'spectrum-by-charge', b), action='%s.entanglement_spectrum_by_charge' % rp.spec)
+        if set(got) != set(want) or any(abs(got[c][0] - want[c][0]) > 1e-9 or abs(got[c][1] - want[c][1]) > 1e-9 for c in want):
+            rp.violation(op, 'entanglement-spectrum-by-charge', dict(bond=b, got={str(c): v for c, v in got.items()},
+                                                                      expected={str(c): v for c, v in want.items()}),
+                         last_bond=(b == psi.L), **sig)
+            return False
+    return True
+
+
 def h_canonical(rp, l, o):
     psi = rp.psi
     quiet(psi.canonical_form, renormalize=l['renormalize'])
@@ -703,6 +752,8 @@ def h_canonical(rp, l, o):
         rp.violation('canonical_form', 'norm_test', dict(norm_test=nt), **sig)
         return False
     if not schmidt_checks(rp, psi, l['rho'], 'canonical_form', sig):
+        return False
+    if not spectrum_by_charge(rp, psi, l.get('rhoq', []), 'canonical_form', sig):
         return False
     return exp
 
